@@ -564,6 +564,16 @@ def fault_program(pid, cfg, cs):
         {"op": "stats"},
         {"op": "status"},
         {"op": "info"},
+        # directories are moved: into a directory two levels down (the check against moving a directory into itself walks up from
+        # the destination), back into the root, into itself (refused), and a non-empty directory is (not) removed
+        {"op": "create_dir", "at": "", "path": "mover"},
+        {"op": "create_dir", "at": "", "path": "mover/inner"},
+        {"op": "rename", "at": "", "src": "mover", "to": "", "dst": "dir/sub directory/mover"},
+        {"op": "rename", "at": "", "src": "dir/sub directory/mover", "to": "", "dst": "mover back"},
+        {"op": "rename", "at": "", "src": "mover back", "to": "", "dst": "mover back/inner/self"},
+        {"op": "remove", "at": "", "path": "mover back"},
+        {"op": "remove", "at": "", "path": "mover back/inner"},
+        {"op": "remove", "at": "", "path": "mover back"},
         {"op": "remove", "at": "", "path": "dir/y"},
         {"op": "remove", "at": "d", "path": "sub directory"},
         {"op": "closedir", "h": "d"},
